@@ -82,6 +82,12 @@ class ThermochemIncomplete(ThermochemBase):
             self._correlation = ThermochemRawData(
                 ND_H_ref, ND_S_ref, Ts, ND_Cps, self.T_ref, self.get_range())
 
+    def set_range(self, range=None):
+        ThermochemBase.set_range(self, range)
+        # the internal correlation checks temperatures against its own range
+        self._setup_correlation()
+    set_range.__doc__ = ThermochemBase.set_range.__doc__
+
     def has_ND_Cp(self, T=None):
         """Return True if correlation has |eq_ND_Cp_T| data (possibly at `T`).
 
@@ -299,7 +305,7 @@ class ThermochemIncomplete(ThermochemBase):
                 ND_S_ref = new_ND_S_ref
 
         # Now store new data and update internal correlation.
-        self.set_range(data_range)
+        ThermochemBase.set_range(self, data_range)
         self.T_ref = T_ref
         self.ND_H_ref = ND_H_ref
         self.ND_S_ref = ND_S_ref
